@@ -8,6 +8,7 @@ import (
 )
 
 func (self *Interpreter) statement(node ast.AnalyzedStatement) *value.Interrupt {
+	verifStep()
 	// Check for the cancelation signal
 	if i := self.checkCancelation(node.Span()); i != nil {
 		return i
